@@ -607,6 +607,68 @@ def stream_sami_doc_text(ctx, res):
     dist["sami_documents_compared_with_string_level_writer_model"] = len(cases)
     dist["sami_documents_differing_from_string_level_writer_model"] = ndiff
 
+def stream_dfxp_doc_langs(ctx, res):
+    """round 4: 2-3 languages of captions given as clean text lines: the text of the multi-language writer model (request
+    209: one <div> per language) against the real DFXPWriter's (difference recorded); the real text read back by the real
+    DFXPReader (violation) and by the string-level reader model (request 121, disagreement): every language, every caption,
+    floored to the millisecond."""
+    from pycaption import DFXPWriter, DFXPReader, CaptionSet, CaptionList, Caption, CaptionNode
+    rng = ctx.rng
+    dist = res["distribution"]
+    cases = []
+    for _ in range(ctx.n(40, 1000)):
+        names = rng.sample(LANGS + ["pt-BR", "x"], rng.choice([2, 2, 3]))
+        langs = []
+        for nm in names:
+            caps = []
+            for _ in range(rng.choice([1, 2, 3])):
+                a, b = int(gen_time(rng)), int(gen_time(rng))
+                if b < a:
+                    a, b = b, a
+                lines = [" ".join(rng.choice(DOC_ATOMS) for _ in range(rng.choice([1, 2]))) for _ in range(rng.choice([1, 1, 2]))]
+                caps.append([a, b, lines])
+            langs.append([nm, caps])
+        cases.append(langs)
+    texts = oracle_batch([(209, langs) for langs in cases])
+    reals = []
+    for langs in cases:
+        d = {}
+        for (nm, caps) in langs:
+            pc = []
+            for (a, b, lines) in caps:
+                nodes = []
+                for i, l in enumerate(lines):
+                    if i:
+                        nodes.append(CaptionNode.create_break())
+                    nodes.append(CaptionNode.create_text(l))
+                pc.append(Caption(a, b, nodes))
+            d[nm] = CaptionList(pc)
+        reals.append(impl.call(lambda: DFXPWriter().write(CaptionSet(d))))
+    models_real = oracle_batch([(121, r.v if isinstance(r, Ok) else "") for r in reals])
+    ndiff = 0
+    for langs, text, real, mr in zip(cases, texts, reals, models_real):
+        res["evaluations"] += 1
+        want = [[nm, [[a // 1000 * 1000, b // 1000 * 1000] for (a, b, _) in caps]] for (nm, caps) in langs]
+        if not isinstance(real, Ok):
+            res["violations"].append({"kind": "dfxp-document-round-trip", "writer": "dfxp", "replay": "none-langs",
+                                      "what": "DFXPWriter raised %r for %s" % (real, langs), "input": langs})
+            continue
+        if real.v != text:
+            ndiff += 1
+        back = impl.call(lambda: [[l, [[c.start, c.end] for c in cs.get_captions(l)]]
+                                  for cs in [DFXPReader().read(real.v)] for l in cs.get_languages()])
+        if not (isinstance(back, Ok) and sorted(back.v) == sorted(want)):
+            res["violations"].append({"kind": "dfxp-document-round-trip", "writer": "dfxp", "replay": "none-langs",
+                                      "what": "multi-language DFXPWriter document read back by DFXPReader as %s, expected %s"
+                                              % (back.v if isinstance(back, Ok) else repr(back), want), "input": langs})
+            continue
+        mm = [[l, [list(x) for x in c]] for (l, c) in mr[1]] if mr[0] == 0 else mr
+        if mm != want and not (mr[0] == 1 and mr[1] == 199):
+            res["disagreements"].append({"what": "string-level reader model on the real multi-language DFXP document",
+                                         "input": langs, "model": mm, "expected": want})
+    dist["dfxp_multi_language_documents_compared_with_writer_model"] = len(cases)
+    dist["dfxp_multi_language_documents_differing_from_writer_model"] = ndiff
+
 
 def run(ctx):
     rng = ctx.rng
@@ -794,6 +856,7 @@ def run(ctx):
     stream_dfxp_doc_text(ctx, res)
     stream_reuse_after_error(ctx, res)
     stream_sami_doc_text(ctx, res)
+    stream_dfxp_doc_langs(ctx, res)
     if ctx.thorough:
         sweep(ctx, res)
     res["rule"] = ("caption sets of 1-3 languages, 1-6 captions, EVERY language arbitrary (runs, overlaps, unsorted, "
@@ -933,6 +996,8 @@ def replay(ctx, rec):
         a = impl.call(lambda: w.write(good))
         b = impl.call(lambda: makers[rec["writer"]]().write(good))
         return not (isinstance(a, Ok) and isinstance(b, Ok) and a.v == b.v), repr(a)[:300]
+    if rec.get("replay") == "none-langs":
+        return True, rec.get("what")
     if rec.get("replay") == "sami-doc":
         from pycaption import SAMIReader
         lang, caps = rec["input"]
